@@ -92,6 +92,7 @@ func runStall(cc *caseCfg, b run.Batch, r *ev.Result) (abort bool) {
 			return action{Kind: "reply", Reply: refenc.BuildSyncReply(rep, x.rogues[j].Key.Priv), CloseAfter: -1, Tag: -1}
 		})
 	}
+	fresh0 := fresh // with a stale stamp a background round may rewrite the file at any moment: no file read
 	x.T0 = client.VerifTicks()
 	x.trace("start client (fresh stamp: %v)", fresh)
 	c, err := drv.StartClient(x.cdir)
@@ -103,7 +104,7 @@ func runStall(cc *caseCfg, b run.Batch, r *ev.Result) (abort bool) {
 	x.clientStarted()
 	r.Count("cases", 1)
 	r.Count("cases_stall", 1)
-	x.checkState("start", true, true)
+	x.checkState("start", true, fresh0)
 
 	// ---- the first background round gets stuck on the first server it dials
 	due := x.T0 + 2
